@@ -58,7 +58,7 @@ func (c18) New() interface{} { return &C18Script{} }
 func (c18) Info() core.Info {
 	return core.Info{
 		Runs: map[string]int{"quick": 1500000, "thorough": 100000000},
-		Rule: "Each run sends m<=24 uniquely stamped packets (+ optional 1..187-byte partial tail) through IOWriter/IOWriteCloser/PacketWriterFunc adapters, either by Write calls cut at scripted byte counts (multiples of 188 and, as the negative case, non-multiples) or by ReadFrom / io.Copy over a SimReader whose every Read outcome is scripted (whole packets, unaligned fragments, one byte at a time, zero-length reads, data together with EOF, transient/hard error after e bytes), with a SimSink that may fail or short-count at a scripted packet; plus a complete sweep of all compositions of two packets (376 bytes) into <=3 read fragments x {EOF alone, data with EOF}. Non-trivial = at least one reach probe fired.",
+		Rule: "Each run sends m<=24 uniquely stamped packets (+ optional 1..187-byte partial tail) through IOWriter/IOWriteCloser/PacketWriterFunc adapters, either by Write calls cut at scripted byte counts (multiples of 188 and, as the negative case, non-multiples) or by ReadFrom / io.Copy over a SimReader whose every Read outcome is scripted (whole packets, unaligned fragments, one byte at a time, zero-length reads, data together with EOF, transient/hard error after e bytes), with a SimSink that may fail or short-count at a scripted packet; plus a complete sweep of all compositions of two packets (376 bytes) into <=3 read fragments x {EOF alone, data with EOF}. Non-trivial = at least one reach probe fired. Added in waves 19-21: mode nested (two stacked adapters, the reader writes through the inner one at scripted Read calls while the outer one reads), mode reenter (the packet writer writes through the adapter that is calling it during a multi-packet Write), readers with a refusing Seek method, reader errors that answer Temporary(), a sink failing with io.ErrShortWrite.",
 		Real: []string{"packet.IOWriter", "packet.IOWriteCloser", "packet.NopCloser", "packet.PacketWriterFunc", "(*packetWriter).Write", "(*packetWriter).ReadFrom", "io.Copy (stdlib)"},
 		Stub: []string{"SimReader (scripted io.Reader)", "SimSink (scripted PacketWriter/Closer)", "packet source"},
 		Assumptions: []string{
